@@ -223,3 +223,52 @@ PROPS['C02'] = {
     'assumptions': ['assume-guarantee at the rounding kernel (contract R, precondition P proved at the call sites)'],
     'validate_per_harness': 6,
 }
+
+
+# ---------------------------------------------------------------- C15
+FPTABLE = None
+
+
+def c15_jobs(tier, seed):
+    jobs = [('vh_c15_classify', [], CUT)]
+    tab = FPTABLE
+    for op in range(4):
+        for cd in range(7):
+            for co in range(7):
+                want = tab['bin'][(op, cd, co)]
+                if cd >= 5 and co >= 5:
+                    continue           # finite non-zero x finite non-zero: numeric properties C01/C02
+                if want == 5 and cd != 0 and co != 0:
+                    # a finite non-zero result from a zero/finite pair (x + 0 = x): value is C01/C02's business
+                    pass
+                jobs.append(('vh_c15_binop', [op, cd, co, want], CUT))
+    for fn in range(10):
+        for cd in range(7):
+            want, wantv = tab['un'][(fn, cd)]
+            if cd == 5:
+                continue               # positive finite: numeric (C16/C17)
+            if cd == 6 and want != 0:
+                continue               # negative finite with a finite result: numeric
+            if fn == 9 and cd == 6:
+                for sub in range(0, 36):
+                    jobs.append(('vh_c15_unary', [fn, cd, want, wantv, sub], CUT))
+            else:
+                jobs.append(('vh_c15_unary', [fn, cd, want, wantv, 0], CUT))
+    for cd in range(7):
+        for co in range(7):
+            if cd >= 5 and co >= 5:
+                continue
+            jobs.append(('vh_c15_quorem', [cd, co], CUT))
+    return jobs
+
+
+PROPS['C15'] = {
+    'jobs': c15_jobs,
+    'needs_fptable': True,
+    'must_reach': ['C15:classify', 'C15:binop', 'C15:invalid', 'C15:nanprop', 'C15:unary', 'C15:invalid1', 'C15:nanprop1', 'C15:quorem'],
+    'bounds': {'all': 'Add, Sub, Mul, Quo (under every DefaultRoundingMode), QuoRemWithMode: all 7x7 operand class pairs with at least one operand NaN/Inf/zero; Sqrt, Cbrt, Exp, Exp2, Exp10, Expm1, Log, Log2, Log10, Log1p on NaN, +-Inf, +-0 and (where the float64 result is NaN) negative finite arguments; inside each class every bit is symbolic (payload, sign, garbage bits, zero exponent, finite value). Expected classes come from the float64 operations of the installed Go toolchain run natively at check time. Classification predicates on all 2^128 patterns.'},
+    'outside': 'finite non-zero operand pairs (numeric results: C01-C03, C16-C18); the math.Pow special-case table (see C18); Round/Ceil/Floor pass-through is in C08, Min/Max/Cmp with specials in C04',
+    'assumptions': ['assume-guarantee cut at the rounding kernel for the finite paths that are reached (x + 0 etc.)'],
+    'trusted': ['float64 arithmetic and package math of the installed Go toolchain as the reference for special-operand result classes'],
+    'validate_per_harness': 5,
+}
